@@ -7,6 +7,22 @@ ENC = ["DER", "UPER", "OER", "CXER", "BXER", "TEXT"]
 DEC_BACK = ["UPER", "OER", "CXER"]
 
 
+IOC_MODULE = """IOT DEFINITIONS AUTOMATIC TAGS ::= BEGIN
+A ::= INTEGER
+B ::= IA5String
+P ::= SEQUENCE { x INTEGER, y INTEGER }
+L ::= SEQUENCE OF BOOLEAN
+Frame ::= SEQUENCE { ident FS.&id({FT}), value FS.&Type({FT}{@ident}) }
+FS ::= CLASS { &id INTEGER UNIQUE, &Type } WITH SYNTAX { &Type IDENTIFIED BY &id }
+FT FS ::= { { A IDENTIFIED BY 1 } | { B IDENTIFIED BY 2 } | { P IDENTIFIED BY 3 } | { L IDENTIFIED BY 4 } }
+END
+"""
+# frames for each row, an identifier without a row, and a row identifier with another row's bytes
+IOC_FRAMES = ["3008800101a103020105", "3009800102a10416026869", "300d800103a1083006800101810102", "300d800104a10830060101ff010100",
+              "3008800109a103020105", "3008800102a103020105", "3008800101a10302017f", "3009800102a10416027a7a", "300d800103a10830068001fe810103",
+              "300a800104a10530030101ff", "3008800103a103020105", "30098001ffa10416026869"]
+
+
 def case_ops(tname, ref, own, rng, timekind):
     """script of one (type, value): decode, all encoders, decode the library's own output again, validate, print, compare, free"""
     ops = ["dec s=0 t=%s syn=BER in=%s" % (tname, ref.hex())]
@@ -78,6 +94,48 @@ def tsan_reports(logdir):
     return reps
 
 
+def prepare_cases(tc, b, ms, prof, quick):
+    # the library's own outputs (for decoding back) come from the ASan build of the same module
+    a = harness.make(tc, ms, prof, atoms=14, composites=8)
+    kind_of = {n: b.mod.resolve(t).kind for n, t in b.mod.types.items()}
+    cases = []
+    acases, ameta = [], {}
+    cid = 0
+    for tname, t in b.mod.types.items():
+        vals = b.gen.values(t, 2 if quick else 4)
+        k_ = kind_of.get(tname)
+        if k_ == "GeneralizedTime":
+            # local time without zone designator, fractions, explicit offsets: the conversion paths that go through libc
+            vals += ["20351231235959", "20351231235959.25", "19991231235959+0130", "2035123123", "203512312359-0800"]
+        elif k_ == "UTCTime":
+            vals += ["351231235959", "3512312359", "351231235959+0130", "9912312359-0800"]
+        for v in vals:
+            ref = harness.ref_der(b, t, v)
+            if ref is None or len(ref) > 4000:
+                continue
+            cid += 1
+            acases.append(drv.Case(cid, ["dec s=0 t=%s syn=BER in=%s" % (tname, drv.hx(ref))] + ["enc s=0 syn=%s" % s for s in DEC_BACK]))
+            ameta[cid] = (tname, ref)
+    own = {}
+    if a.exe:
+        res = drv.run_parallel(a.exe, acases)
+        for c, (tname, ref) in ameta.items():
+            r = res.get(c)
+            o = {}
+            if r is not None and r.status == "ok" and len(r.events) >= 1 + len(DEC_BACK):
+                for i, s in enumerate(DEC_BACK):
+                    out = r.events[1 + i].get("out")
+                    if out not in (None, "-") and r.events[1 + i].get("rc") not in ("-1", None) and len(out) < 8000:
+                        o[s] = out
+            elif r is not None and r.status != "ok":
+                continue        # values that crash the library single-threaded belong to C01/C04
+            own[c] = o
+    for c, (tname, ref) in ameta.items():
+        if c in own:
+            cases.append((tname, ref, own[c]))
+    return kind_of, cases
+
+
 def run(tier, seed):
     chk = core.Check("C19", tier, seed)
     quick = tier == "quick"
@@ -98,50 +156,31 @@ def run(tier, seed):
     allpairs = set()
     ncalls = 0
     nruns = 0
-    for mi in range(nmod):
+    for mi in range(nmod + 1):
         ms = seed * 1000 + 1900 + mi
-        b = harness.make(tc, ms, prof, atoms=14, composites=8, variant="tsan", driver="tdriver", wrap_alloc=False)
+        ioc = mi == nmod        # last round: a module with an information object set (generated type selectors, open types)
+        if ioc:
+            d0 = build.scratch_dir("c19ioc")
+            with open(os.path.join(d0, "IOT.asn1"), "w") as f:
+                f.write(IOC_MODULE)
+            try:
+                exe, p_ = build.compile_module(tc, [os.path.join(d0, "IOT.asn1")], os.path.join(d0, "out"), variant="tsan", driver="tdriver", wrap_alloc=False)
+            except build.BuildError as e:
+                exe, p_ = None, None
+            if exe is None:
+                chk.inconcl("object-set module not built")
+                continue
+            b = harness.Built()
+            b.exe, b.text = exe, IOC_MODULE
+            kind_of = {"Frame": "SEQUENCE+open-type"}
+            cases = [("Frame", bytes.fromhex(h), {}) for h in IOC_FRAMES]
+        else:
+            b = harness.make(tc, ms, prof, atoms=14, composites=8, variant="tsan", driver="tdriver", wrap_alloc=False)
         if b.exe is None:
             chk.inconcl("module not built (%s)" % b.error[0])
             continue
-        # the library's own outputs (for decoding back) come from the ASan build of the same module
-        a = harness.make(tc, ms, prof, atoms=14, composites=8)
-        kind_of = {n: b.mod.resolve(t).kind for n, t in b.mod.types.items()}
-        cases = []
-        acases, ameta = [], {}
-        cid = 0
-        for tname, t in b.mod.types.items():
-            vals = b.gen.values(t, 2 if quick else 4)
-            k_ = kind_of.get(tname)
-            if k_ == "GeneralizedTime":
-                # local time without zone designator, fractions, explicit offsets: the conversion paths that go through libc
-                vals += ["20351231235959", "20351231235959.25", "19991231235959+0130", "2035123123", "203512312359-0800"]
-            elif k_ == "UTCTime":
-                vals += ["351231235959", "3512312359", "351231235959+0130", "9912312359-0800"]
-            for v in vals:
-                ref = harness.ref_der(b, t, v)
-                if ref is None or len(ref) > 4000:
-                    continue
-                cid += 1
-                acases.append(drv.Case(cid, ["dec s=0 t=%s syn=BER in=%s" % (tname, drv.hx(ref))] + ["enc s=0 syn=%s" % s for s in DEC_BACK]))
-                ameta[cid] = (tname, ref)
-        own = {}
-        if a.exe:
-            res = drv.run_parallel(a.exe, acases)
-            for c, (tname, ref) in ameta.items():
-                r = res.get(c)
-                o = {}
-                if r is not None and r.status == "ok" and len(r.events) >= 1 + len(DEC_BACK):
-                    for i, s in enumerate(DEC_BACK):
-                        out = r.events[1 + i].get("out")
-                        if out not in (None, "-") and r.events[1 + i].get("rc") not in ("-1", None) and len(out) < 8000:
-                            o[s] = out
-                elif r is not None and r.status != "ok":
-                    continue        # values that crash the library single-threaded belong to C01/C04
-                own[c] = o
-        for c, (tname, ref) in ameta.items():
-            if c in own:
-                cases.append((tname, ref, own[c]))
+        if not ioc:
+            kind_of, cases = prepare_cases(tc, b, ms, prof, quick)
         if len(cases) < 8:
             chk.inconcl("too few cases")
             continue
@@ -183,6 +222,16 @@ def run(tier, seed):
                                   nthreads, pcon.returncode, " ".join(pcon.stderr.decode("latin-1")[-300:].split())),
                               dict(replay, script_text="\n".join(script)[:20000], stderr=pcon.stderr.decode("latin-1")[-3000:]))
                 continue
+            # the reference DER of every case was accepted by the single-threaded generic driver: a thread must accept it too,
+            # with or without the shared codec context
+            for tid in (sorted(lseq) if not ioc else []):
+                bad = [l for l in lseq[tid] if l.startswith("R dec syn=BER ") and " rc=0 " not in l + " "]
+                chk.evaluations += 1
+                if bad:
+                    chk.violation({"symptom": "decode-in-thread-refused", "syntax": "BER"},
+                                  "thread %d, run alone: BER decode of a reference encoding that the single-threaded driver accepts answers '%s' (%d such calls)" % (
+                                      tid, bad[0][:60], len(bad)), dict(replay, script_text="\n".join(script)[:20000]))
+                    break
             lcon, times = parse_out(pcon.stdout.decode("latin-1"))
             pairs, npair = overlaps(times, kind_of)
             allpairs |= pairs
